@@ -204,8 +204,23 @@ def run(db, chk) -> None:
     trim_conds = [r.path for r, (c, t) in zip(runs, summary) if t]
     strict = bool(trim_conds) and any(p[0] == "not" and T.find(p, lambda s: s[0] == "cmp" and s[1] == "==") for p in trim_conds[0]) or \
         (bool(trim_conds) and any(p[0] == "cmp" and p[1] in ("!=", ">", ">=") for p in trim_conds[0]))
-    chk.ob("C12.R3-guard", "nothing is trimmed when the symbol table holds no or exactly one ProfilerStep name; otherwise every rank is trimmed", ok, m.loc(f3),
-           found=summary, accepted="3 cases: no steps -> keep, one step -> keep, two or more -> trim")
+    # evaluate the path conditions on representative step counts 0..3: trimming must happen exactly for counts >= 2
+    table = {}
+    try:
+        for n in (0, 1, 2, 3):
+            def leaf(t, n=n):
+                if t[0] == "len":
+                    return n
+                if t[0] == "truthy":
+                    return n > 0
+                raise T.Unknown(t)
+            hits = [tr for r, (c, tr) in zip(runs, summary) if all(T.evaluate(p_, leaf) for p_ in r.path)]
+            table[n] = hits
+        okt = table == {0: [False], 1: [False], 2: [True], 3: [True]}
+    except T.Unknown as u:
+        okt, table = None, {"unknown": T.show(u.args[0])[:100]}
+    chk.ob("C12.R3-guard", "nothing is trimmed when the symbol table holds no or exactly one ProfilerStep name; otherwise every rank is trimmed", okt, m.loc(f3),
+           found={str(k): v for k, v in table.items()}, accepted={"0": [False], "1": [False], "2": [True], "3": [True]}, why="with two or more steps the trailing (incomplete) step must be trimmed")
     # ------------------------------------------------------------------ R4 end coherence + load order
     check_end_coherence(db, chk, "C12.R4-end-coherence")
     lt = m.func("Trace.load_traces")
